@@ -88,7 +88,17 @@ Feedback(u) == {Cf(<<Cp(<<OutOnly>>, o1), Cp(<<m1, m2>>, 0), Cp(<<f1>>, 0)>>, or
                   m2 \in {Delayed(InOnly(3, 1, pl)) : pl \in BOOLEAN},
                   f1 \in {Pt(TRUE, 2, 1, io, pl, TRUE, oo, d) : io \in BOOLEAN, pl \in BOOLEAN, oo \in BOOLEAN, d \in Datas},
                   o1 \in {0, 1}, ord \in Perm3All}
-CSpace(f) == CASE f = "feedback" -> Feedback(0) [] f = "lanes" -> Lanes(0) [] f = "cross" -> Cross(0) [] f = "halfstuck" -> HalfStuck(0) [] f = "staticlane" -> StaticLane(0)
+(* the metadata chain passes through R twice: S -> R.b => R.Outb -> T => T.Out -> R.a => R.Outa -> sink; *)
+(* the two derived outputs of R are declared in either order (sw)                                       *)
+Perm4 == {<<1, 2, 3, 4>>, <<4, 3, 2, 1>>, <<2, 4, 1, 3>>, <<3, 1, 4, 2>>}
+Twist(u) == {Cf(<<Cp(<<OutOnly>>, 0),
+                  Cp(IF sw THEN <<Pt(TRUE, 1, 1, TRUE, pl2, TRUE, FALSE, "imm"), Pt(TRUE, 3, 1, TRUE, pl1, TRUE, FALSE, d1)>>
+                           ELSE <<Pt(TRUE, 3, 1, TRUE, pl1, TRUE, FALSE, d1), Pt(TRUE, 1, 1, TRUE, pl2, TRUE, FALSE, "imm")>>, 0),
+                  Cp(<<Pt(TRUE, 2, IF sw THEN 1 ELSE 2, TRUE, pl3, TRUE, oo3, d3)>>, 0),
+                  Cp(<<InOnly(2, IF sw THEN 2 ELSE 1, pl4)>>, 0)>>, ord, "twist") :
+               sw \in BOOLEAN, pl1 \in BOOLEAN, pl2 \in BOOLEAN, d1 \in {"imm", "ininfo"}, pl3 \in BOOLEAN, oo3 \in BOOLEAN,
+               d3 \in Datas, pl4 \in BOOLEAN, ord \in Perm4}
+CSpace(f) == CASE f = "twist" -> Twist(0) [] f = "feedback" -> Feedback(0) [] f = "lanes" -> Lanes(0) [] f = "cross" -> Cross(0) [] f = "halfstuck" -> HalfStuck(0) [] f = "staticlane" -> StaticLane(0)
 
 (* theorems on the case space (evaluated by Connect2Emit) *)
 ThLfp(cfg) ==
